@@ -203,7 +203,8 @@ class Sub:
 # ---------------------------------------------------------------------------------------
 # drivers
 # ---------------------------------------------------------------------------------------
-MAX_ROUNDS = 6  # distinct root causes enumerated per sub-check and shard
+MAX_ROUNDS = 1 if os.environ.get("VERIF_FAST_FAIL") else 6  # distinct root causes enumerated per sub-check and shard (VERIF_FAST_FAIL: development aid for
+# evaluating seeded defects - first finding only, no shrinking; never set by a registered command)
 
 
 def _hyp_settings(n, steps=None):
@@ -211,7 +212,7 @@ def _hyp_settings(n, steps=None):
 
     kw = dict(verbosity=Verbosity.quiet, max_examples=n, database=None, deadline=None, report_multiple_bugs=False,
               derandomize=False, suppress_health_check=list(HealthCheck),
-              phases=(Phase.generate, Phase.shrink), print_blob=False)
+              phases=(Phase.generate,) if os.environ.get("VERIF_FAST_FAIL") else (Phase.generate, Phase.shrink), print_blob=False)
     if steps is not None:
         kw["stateful_step_count"] = steps
     return settings(**kw)
